@@ -506,9 +506,9 @@ example : let s := run ⟨fun _ => 1⟩ (St.init 1 9092) [.make 1 true, .make 2 
 example : ((trace ⟨fun _ => 1⟩ (St.init 1 9092)
       [.make 1 true, .make 2 true, .make 3 true, .connOk, .cancel 2, .disconnect, .lost, .connOk]).map (·.2)).drop 4 =
     [[.fire 1 2 (.err .cancelled)], [.lose 0], [.connect 1 9092], [.write 1 0 1, .write 1 2 3]] := by decide +kernel
-example : (Afkak.ClientNet.exec ⟨1, true, []⟩
-      { reqs := [{ k := 0, b := 5, issued := 0, due := 1, owner := .srtc 0 }] } (.timeoutFired 0)).2.1
-    = [.bcCancel 0, .fired 0 (some .cancelled)] := by decide +kernel
+example : ∃ (st : Afkak.ClientNet.St) (q : Afkak.ClientNet.Req),
+    Afkak.ClientNet.reqGet st 0 = some q ∧ q.pending = true ∧ q.b = 5 :=
+  ⟨{ reqs := [{ k := 0, b := 5, issued := 0, due := 1, owner := .srtc 0 }] }, _, rfl, rfl, rfl⟩
 
 /-- C10 with RE-ENTRANT callbacks, unconditionally (formerly the open statement): for every
     configuration and every event list of the re-entrant model, from some amount of fuel on the
